@@ -156,6 +156,11 @@ impl Elem for Fq {
         Fq::from_repr(repr6(&parse_limbs(s, 6)?)).ok()
     }
     fn show(&self) -> String {
+        // an element whose stored (Montgomery) limbs are not below the modulus is not a field element at all:
+        // equality and zero tests on it are wrong even though into_repr() may print a plausible value
+        if !(self.verif_raw() < Fq::char()) {
+            return format!("NONCANONICAL-RAW:{}", limbs_hex(&self.verif_raw().0));
+        }
         limbs_hex(&self.into_repr().0)
     }
 }
@@ -164,6 +169,9 @@ impl Elem for Fr {
         Fr::from_repr(repr4(&parse_limbs(s, 4)?)).ok()
     }
     fn show(&self) -> String {
+        if !(self.verif_raw() < Fr::char()) {
+            return format!("NONCANONICAL-RAW:{}", limbs_hex(&self.verif_raw().0));
+        }
         limbs_hex(&self.into_repr().0)
     }
 }
